@@ -273,7 +273,7 @@ def body(case):
         run.solver.AddListener(first)
         for ov in case["customs"]:
             run.solver.AddListener(make_custom(ov, sink, case.get("value_eq", False), case.get("indirect", False)))
-        swallowed = []
+        swallowed, crashed = [], []
         for spec in case["shipped"]:
             run.solver.AddListener(tap(make_shipped(spec, n, outdir), swallowed))
         run.solver.AddListener(last)
@@ -292,6 +292,9 @@ def body(case):
                     run.step(op)
             except Exception as e:
                 swallowed.append(e)
+                escaped = True
+            else:
+                escaped = False
             if swallowed:
                 # an exception left a shipped listener's callback: either it came out of the call, or Solve caught it
                 # (it catches whatever a callback raises and goes on)
@@ -303,9 +306,19 @@ def body(case):
                 tb = traceback.extract_tb(e.__traceback__)
                 deepest_in_repo = bool(tb) and os.path.realpath(tb[-1].filename).startswith(REPO + os.sep)
                 if fragile and "painters" in where and not deepest_in_repo:
-                    return False, ["painter-precondition:" + type(e).__name__]
-                fail("%s raised while listeners were attached (%r): %s at %s: %s" %
-                     (type(e).__name__, op, who, where, str(e)[:160]))
+                    if escaped and op == "solve":
+                        fail("%s raised by a shipped painter's own fit in OnMethodStop escaped from Solve: the caller "
+                             "gets no result and the listeners after the painter are not told that Solve ended (%s)" %
+                             (type(e).__name__, str(e)[:120]))
+                    if escaped:
+                        return False, ["painter-precondition:" + type(e).__name__]
+                    # the painter's own fit failed inside its callback and Solve went on: everything else - what the
+                    # other listeners are told, the trial sequence, the result - is still checked
+                    crashed.append(type(e).__name__)
+                    del swallowed[:]
+                else:
+                    fail("%s raised while listeners were attached (%r): %s at %s: %s" %
+                         (type(e).__name__, op, who, where, str(e)[:160]))
             after = sum(1 for e in first.events if e[0] == "iter")
             calls.append((op, before, after))
             if op == "solve" and case.get("refine"):
@@ -399,6 +412,8 @@ def body(case):
         big_batch = any(op != "solve" and op > 1 for op in case["ops"])
         classes = ["N=%d" % n, "customs=%d" % len(case["customs"]), "probes>0" if nprobes else "probes=0",
                    "refine" if case.get("refine") else "no-refine"]
+        if crashed:
+            classes.append("painter-fit-failed-inside-OnMethodStop")
         classes += ["shipped=" + s["kind"] + (":" + s["mode"] if "mode" in s else "") for s in case["shipped"]]
         if case.get("value_eq") and len(case["customs"]) >= 2:
             classes.append("value-equal-listeners")
